@@ -210,6 +210,26 @@ def run(t):
                             f"{got} via {ast.unparse(emitted)}", rp)
                 break
     from func_adl.ast.syntatic_sugar import resolve_syntatic_sugar
+    # the spec function of the deductive proof (lower_sugar), run natively, against the real code
+    import sugar as spec_sugar
+    import specrt
+    multi = ["lambda e: [x.pt + y.pt for x in e.jets for y in x.tracks]",
+             "lambda e: [y.pt for x in e.jets if x.pt > 1 for y in x.tracks if y.pt > 0 if y.pt < 9]",
+             "lambda e: [[y.pt for y in x.tracks] for x in e.jets if x.eta > 0]",
+             "lambda e: Sum(x.pt for x in e.jets if x.pt > [t.pt for t in x.tracks][0])"]
+    for lam in list(comps) + multi:
+        t.case("C06:spec:" + lam, lam.count(" for ") > 1, sample=lam)
+        t.contract("resolve_syntatic_sugar == lower_sugar (spec, native), structurally")
+        tree = ast.parse(lam, mode="eval").body
+        try:
+            want = spec_sugar.lower_sugar(copy.deepcopy(tree))
+        except NotImplementedError:
+            continue
+        got = resolve_syntatic_sugar(copy.deepcopy(tree))
+        if not specrt.same(got, want):
+            t.violation("resolve_syntatic_sugar:ensures same(result, lower_sugar(a))",
+                        "the lowering differs from the spec", lam, ast.unparse(want),
+                        ast.unparse(got), {"kind": "C06", "key": lam})
     for lam in BAD:
         t.case("C06:bad:" + lam, True)
         t.contract("resolve_syntatic_sugar: tuple targets / multi-for handled")
